@@ -18,7 +18,8 @@ HASH_SHARDS = [0, 1]
 PROFILE = grammar.profile(
     mixin_variants=True, p_yaml=1.0, p_foreign_request=0.35, p_add_iam_methods=0.15, p_lro=0.3, p_list=0.3, p_get=0.6,
     p_create=0.2, p_update=0.2, p_delete=0.3, p_custom=0.3, p_sstream=0.0, p_cstream=0.0, p_bidi=0.0,
-    p_service_config=0.5, resources=(1, 2), transports=["grpc", "grpc+rest", "grpc+rest", "rest"], p_two_services=0.45)
+    p_service_config=0.5, resources=(1, 2), transports=["grpc", "grpc+rest", "grpc+rest", "rest"], p_two_services=0.45,
+    p_mixin_mixed_body=0.25)
 
 BUDGET = {
     "quick": {"worlds": 120, "runs": 30, "wall_cap": 300, "world_wall": 90},
